@@ -3,11 +3,12 @@
 
 A small transition system with four actors; every step is one atomic action of the code.
 
-* **M**, the main goroutine: `s.Run(ctx)` — `mu.Lock`; publish `s.httpServer`; `mu.Unlock`; `ListenAndServe` (returns
+* **M**, the main goroutine: `s.Run(ctx)` — `mu.Lock`; if `s.stopped` return nil (deferred `Unlock`) — else publish
+  `s.httpServer`; `mu.Unlock`; `ListenAndServe` (returns
   `ErrServerClosed` at once if `http.Server.Shutdown` was already called, otherwise serves until it is called);
   `mu.Lock`; return (deferred `Unlock`); then `<-cleanShutdown`; then the process exits.
 * **G**, the signal goroutine: `signal.Notify`; wait for the signal; `s.Shutdown(ctx)` — `mu.Lock`; if `s.httpServer == nil`
-  return "server is not running" (deferred `Unlock`); else `http.Server.Shutdown` (closes the listener, then waits until
+  set `s.stopped` and return "server is not running" (deferred `Unlock`); else `http.Server.Shutdown` (closes the listener, then waits until
   no handler is active — its context is only cancelled by G itself afterwards, so it waits without bound);
   `s.httpServer = nil`; close the store; `Unlock` — then `cancel()`, `close(cleanShutdown)`.
 * **H**, one request (optional): arrives while the listener is open; with a rate limit it takes the limiter's mutex
@@ -17,7 +18,9 @@ A small transition system with four actors; every step is one atomic action of t
 
 Parameters (facts about the tree under test, tied to the source text by `C19.lifecycle_shape`):
 `sharedMu` — the limiter locks `Server.mu`, the mutex `Shutdown` holds across `http.Server.Shutdown`;
-`limiterOn` — `conf.API.RateLimit > 0`; `handler` — a request arrives at all.
+`limiterOn` — `conf.API.RateLimit > 0`; `handler` — a request arrives at all; `remembers` — `Shutdown` records in
+`s.stopped` that it was called while no listener was published and `Run` honours it (the repair of F26a; `false` is
+the handshake before that repair, kept to show what it did).
 
 A state is a record of small numbers; it is *stored packed in one natural number* (field `f` occupies the digit
 `(s / f.shift) % f.width`), because the kernel evaluates arithmetic on literals quickly and record updates slowly, and
@@ -32,6 +35,7 @@ structure Params where
   sharedMu : Bool
   limiterOn : Bool
   handler : Bool
+  remembers : Bool
   deriving DecidableEq, Repr
 
 abbrev St := Nat
@@ -59,6 +63,7 @@ def cleanClosed : Field := ⟨8388608, 2⟩
 def gErr : Field := ⟨16777216, 2⟩        -- Shutdown answered "server is not running"
 def killed : Field := ⟨33554432, 2⟩      -- default disposition (signal before signal.Notify)
 def exited : Field := ⟨67108864, 2⟩      -- serveOpts.run returned nil
+def stopped : Field := ⟨134217728, 2⟩    -- s.stopped: Shutdown was called while no listener was published
 
 /-- after `olareg.New`: everything zero except the open store -/
 def init : St := set store 1 0
@@ -66,7 +71,8 @@ def init : St := set store 1 0
 def stepM (s : St) : List St :=
   match get pcM s with
   | 0 => if get mu s = 0 then [s |> set mu 1 |> set pcM 1] else []
-  | 1 => [s |> set httpServer 1 |> set pcM 2]            -- the nil check passes: Run is called once
+  | 1 => if get stopped s = 1 then [s |> set mu 0 |> set pcM 7]    -- Shutdown came first: return nil (deferred Unlock)
+         else [s |> set httpServer 1 |> set pcM 2]        -- the nil check passes: Run is called once
   | 2 => [s |> set mu 0 |> set pcM 3]
   | 3 => if get hsDown s = 1 then [set pcM 5 s] else [s |> set listening 1 |> set pcM 4]
   | 4 => if get hsDown s = 1 then [set pcM 5 s] else []
@@ -77,13 +83,13 @@ def stepM (s : St) : List St :=
 
 def handlerActive (s : St) : Bool := get pcH s = 1 || get pcH s = 2 || get pcH s = 3
 
-def stepG (s : St) : List St :=
+def stepG (p : Params) (s : St) : List St :=
   match get pcG s with
   | 0 => [s |> set notify 1 |> set pcG 1]
   | 1 => if get sig s = 1 then [s |> set sig 2 |> set pcG 2] else []
   | 2 => if get mu s = 0 then [s |> set mu 2 |> set pcG 3] else []
   | 3 => if get httpServer s = 1 then [s |> set hsDown 1 |> set listening 0 |> set pcG 4]
-         else [s |> set gErr 1 |> set mu 0 |> set pcG 7]
+         else [s |> set gErr 1 |> set stopped (if p.remembers then 1 else 0) |> set mu 0 |> set pcG 7]
   | 4 => if handlerActive s then [] else [set pcG 5 s]
   | 5 => [s |> set httpServer 0 |> set closes (get closes s + get store s) |> set store 0 |> set pcG 6]
   | 6 => [s |> set mu 0 |> set pcG 7]
@@ -108,7 +114,7 @@ def stepEnv (s : St) : List St :=
 
 /-- all successors; a dead process (killed or exited) does nothing -/
 def next (p : Params) (s : St) : List St :=
-  if get killed s = 1 || get exited s = 1 then [] else stepM s ++ stepG s ++ stepH p s ++ stepEnv s
+  if get killed s = 1 || get exited s = 1 then [] else stepM s ++ stepG p s ++ stepH p s ++ stepEnv s
 
 inductive Reach (p : Params) : St → Prop
   | init : Reach p init
@@ -126,7 +132,14 @@ def clean (s : St) : Bool :=
 def killedEarly (s : St) : Bool :=
   get killed s = 1 && get closes s = 0 && get notify s = 0 && get sigAfterPublish s = 0
 
-/-- F26a: `Shutdown` found no server, the goroutine that listens for signals is gone, the server serves for ever -/
+/-- the signal came during start-up, before `Run` had published its listener: `Shutdown` answered "server is not
+running" and left `s.stopped`, `Run` saw it and returned nil, `run` returned.  No listener was ever opened, no request
+served; the store is still open (`Shutdown` closes it only after stopping a listener) and the mutex is free. -/
+def stoppedBeforeStart (s : St) : Bool :=
+  get exited s = 1 && get killed s = 0 && get gErr s = 1 && get stopped s = 1 && get listening s = 0 && get hsDown s = 0 &&
+    get httpServer s = 0 && get pcH s = 0 && get store s = 1 && get closes s = 0 && get mu s = 0 && get sigAfterPublish s = 0
+
+/-- F26a (the handshake before `s.stopped`): `Shutdown` found no server, the goroutine that listens for signals is gone, the server serves for ever -/
 def stuckServing (s : St) : Bool :=
   get gErr s = 1 && get exited s = 0 && get listening s = 1 && get pcM s = 4 && get pcG s = 8 && get store s = 1 &&
     get closes s = 0 && get sig s = 2
@@ -156,15 +169,17 @@ theorem reach_mem (p : Params) (l : List St) (hc : closedSet p l = true) {s : St
   | step _ ht ih => simpa using hc.2 _ ih _ ht
 
 def allParams : List Params :=
-  [false, true].flatMap fun a => [false, true].flatMap fun b => [false, true].map fun c => ⟨a, b, c⟩
+  [false, true].flatMap fun a => [false, true].flatMap fun b => [false, true].map fun c => ⟨a, b, c, true⟩
 
-theorem mem_allParams (p : Params) : p ∈ allParams := by
+/-- every parameter set of the handshake with `s.stopped` -/
+theorem mem_allParams (p : Params) (h : p.remembers = true) : p ∈ allParams := by
   cases p with
-  | mk a b c => cases a <;> cases b <;> cases c <;> decide
+  | mk a b c d => cases a <;> cases b <;> cases c <;> cases d <;> first | decide | cases h
 
 /-- the verdict on a terminal state: how a run may end -/
 def verdict (p : Params) (s : St) : Bool :=
-  clean s || killedEarly s || (stuckServing s && get sigAfterPublish s = 0) ||
+  clean s || killedEarly s || (stoppedBeforeStart s && p.remembers) ||
+    (stuckServing s && !p.remembers && get sigAfterPublish s = 0) ||
     (deadlocked s && p.sharedMu && p.limiterOn && p.handler)
 
 /-- executable classification of every terminal state in `l` -/
@@ -176,61 +191,60 @@ def checked (p : Params) : Bool := closedSet p (reachable p) && classifiedOn p (
 
 /-! ### certificate
 
-The three lists below are the output of `reachable` (`#eval reachable ⟨…⟩`, see notes/design-C19.md) pasted as literals,
+The three lists below are the output of `reachable` for `remembers = true` (`#eval reachable ⟨…, true⟩`, see notes/design-C19.md) pasted as literals,
 so that the kernel does not have to run the exploration: they are only *proposals* — `certified` checks in the kernel
 that each contains `init`, is closed under `next` and that every terminal state in it has a verdict. -/
 
 def certNoHandler : List St := [
   262144, 264193, 2359312, 33849344, 395266, 2361361, 33851393, 2392080, 393219, 2492434,
   33982466, 2394129, 2424864, 917508, 2490387, 33980419, 6719506, 2525202, 2426913, 2428976,
-  3014676, 34504708, 6717459, 6752290, 2523155, 2557986, 19202160, 7241748, 6750243, 3047444,
-  2555939, 19204209, 27590784, 7274532, 6754355, 3080228, 2560051, 19335282, 27592833, 7278644,
-  7802947, 3084340, 3608643, 19333235, 27723906, 7802948, 7802949, 7802963, 3608644, 3608645,
-  3608659, 19857524, 27721859, 7802964, 7802965, 7417955, 3608660, 3608661, 3223651, 28246148,
-  7417956, 7417957, 7413875, 3223652, 3223653, 3219571, 7413876, 7413877, 15802499, 3219572,
-  3219573, 11608195, 15802500, 7415926, 15802501, 11608196, 3221622, 11608197, 7413879, 15804550,
-  3219575, 11610246, 15802503, 11608199, 82911368, 78717064]
+  3014676, 34504708, 6717459, 6752290, 2523155, 2557986, 153419888, 7241748, 6750243, 3047444,
+  2555939, 153421937, 161808512, 7274532, 6754355, 3080228, 2560051, 153419895, 161810561, 7278644,
+  7802947, 3084340, 3608643, 161808519, 7802948, 7802949, 7802963, 3608644, 3608645, 3608659,
+  228917384, 7802964, 7802965, 7417955, 3608660, 3608661, 3223651, 7417956, 7417957, 7413875,
+  3223652, 3223653, 3219571, 7413876, 7413877, 15802499, 3219572, 3219573, 11608195, 15802500,
+  7415926, 15802501, 11608196, 3221622, 11608197, 7413879, 15804550, 3219575, 11610246, 15802503,
+  11608199, 82911368, 78717064]
 
 def certPlain : List St := [
   262144, 264193, 2359312, 33849344, 395266, 2361361, 33851393, 2392080, 393219, 2492434,
   33982466, 2394129, 2424864, 917508, 2490387, 33980419, 6719506, 2525202, 2426913, 2428976,
-  3014676, 917764, 34504708, 6717459, 6752290, 2523155, 2557986, 19202160, 3014932, 7241748,
-  918276, 34504964, 6750243, 3047444, 2555939, 19204209, 27590784, 3015444, 7242004, 7274532,
-  918532, 34505476, 6754355, 3080228, 3047700, 2560051, 19335282, 27592833, 3015700, 7242516,
-  7274788, 7278644, 34505732, 7802947, 3084340, 3080484, 3048212, 3608643, 19333235, 27723906,
-  7242772, 7275300, 7278900, 7802948, 7802949, 7802963, 3608644, 3084596, 3080996, 3048468,
-  3608645, 3608659, 19857524, 27721859, 7275556, 7279412, 7803204, 7802964, 7802965, 7417955,
-  3608660, 3608900, 3085108, 3081252, 3608661, 3223651, 28246148, 19857780, 7279668, 7803716,
-  7803205, 7417956, 7417957, 7413875, 3223652, 3608901, 3609412, 3085364, 3223653, 3219571,
-  28246404, 19858292, 7803972, 7803717, 7413876, 7413877, 15802499, 3219572, 3609413, 3609668,
-  3219573, 11608195, 28246916, 19858548, 7803973, 7803988, 15802500, 7415926, 15802501, 11608196,
-  3609669, 3609684, 3221622, 11608197, 28247172, 7803989, 7418980, 7413879, 15804550, 3609685,
-  3224676, 3219575, 11610246, 7418981, 7414900, 15802503, 3224677, 3220596, 11608199, 7414901,
-  15803524, 82911368, 3220597, 11609220, 78717064, 7416950, 15803525, 3222646, 11609221, 7414903,
-  15805574, 3220599, 11611270, 15803527, 11609223, 82912392, 78718088]
+  3014676, 917764, 34504708, 6717459, 6752290, 2523155, 2557986, 153419888, 3014932, 7241748,
+  918276, 34504964, 6750243, 3047444, 2555939, 153421937, 161808512, 3015444, 7242004, 7274532,
+  918532, 34505476, 6754355, 3080228, 3047700, 2560051, 153419895, 161810561, 3015700, 7242516,
+  7274788, 7278644, 34505732, 7802947, 3084340, 3080484, 3048212, 3608643, 161808519, 7242772,
+  7275300, 7278900, 7802948, 7802949, 7802963, 3608644, 3084596, 3080996, 3048468, 3608645,
+  3608659, 228917384, 7275556, 7279412, 7803204, 7802964, 7802965, 7417955, 3608660, 3608900,
+  3085108, 3081252, 3608661, 3223651, 7279668, 7803716, 7803205, 7417956, 7417957, 7413875,
+  3223652, 3608901, 3609412, 3085364, 3223653, 3219571, 7803972, 7803717, 7413876, 7413877,
+  15802499, 3219572, 3609413, 3609668, 3219573, 11608195, 7803973, 7803988, 15802500, 7415926,
+  15802501, 11608196, 3609669, 3609684, 3221622, 11608197, 7803989, 7418980, 7413879, 15804550,
+  3609685, 3224676, 3219575, 11610246, 7418981, 7414900, 15802503, 3224677, 3220596, 11608199,
+  7414901, 15803524, 82911368, 3220597, 11609220, 78717064, 7416950, 15803525, 3222646, 11609221,
+  7414903, 15805574, 3220599, 11611270, 15803527, 11609223, 82912392, 78718088]
 
 def certShared : List St := [
   262144, 264193, 2359312, 33849344, 395266, 2361361, 33851393, 2392080, 393219, 2492434,
   33982466, 2394129, 2424864, 917508, 2490387, 33980419, 6719506, 2525202, 2426913, 2428976,
-  3014676, 917764, 34504708, 6717459, 6752290, 2523155, 2557986, 19202160, 3014932, 7241748,
-  924164, 34504964, 6750243, 3047444, 2555939, 19204209, 27590784, 3021332, 7242004, 7274532,
-  918276, 34511364, 6754355, 3080228, 3047700, 2560051, 19335282, 27592833, 3015444, 7248404,
-  7274788, 7278644, 918532, 34505476, 7802947, 3084340, 3080484, 3054100, 3608643, 19333235,
-  27723906, 3015700, 7242516, 7281188, 7278900, 7802948, 34505732, 7802949, 7802963, 3608644,
-  3084596, 3086884, 3048212, 3608645, 3608659, 19857524, 27721859, 7242772, 7275300, 7803204,
-  7802964, 7802965, 7417955, 3608660, 3608900, 3080996, 3048468, 3608661, 3223651, 28246148,
-  19857780, 7275556, 7279412, 7803205, 7417956, 7417957, 7413875, 3223652, 3608901, 3085108,
-  3081252, 3223653, 3219571, 28246404, 19864180, 7279668, 7803716, 7413876, 7413877, 15802499,
-  3219572, 3609412, 3085364, 3219573, 11608195, 28252804, 19858292, 7803972, 7803717, 15802500,
-  7415926, 15802501, 11608196, 3609413, 3609668, 3221622, 11608197, 28246916, 19858548, 7803973,
-  7803988, 7413879, 15804550, 3609669, 3609684, 3219575, 11610246, 28247172, 7803989, 7418980,
-  15802503, 3609685, 3224676, 11608199, 7418981, 7414900, 82911368, 3224677, 3220596, 78717064,
-  7414901, 15803524, 3220597, 11609220, 7416950, 15803525, 3222646, 11609221, 7414903, 15805574,
-  3220599, 11611270, 15803527, 11609223, 82912392, 78718088]
+  3014676, 917764, 34504708, 6717459, 6752290, 2523155, 2557986, 153419888, 3014932, 7241748,
+  924164, 34504964, 6750243, 3047444, 2555939, 153421937, 161808512, 3021332, 7242004, 7274532,
+  918276, 34511364, 6754355, 3080228, 3047700, 2560051, 153419895, 161810561, 3015444, 7248404,
+  7274788, 7278644, 918532, 34505476, 7802947, 3084340, 3080484, 3054100, 3608643, 161808519,
+  3015700, 7242516, 7281188, 7278900, 7802948, 34505732, 7802949, 7802963, 3608644, 3084596,
+  3086884, 3048212, 3608645, 3608659, 228917384, 7242772, 7275300, 7803204, 7802964, 7802965,
+  7417955, 3608660, 3608900, 3080996, 3048468, 3608661, 3223651, 7275556, 7279412, 7803205,
+  7417956, 7417957, 7413875, 3223652, 3608901, 3085108, 3081252, 3223653, 3219571, 7279668,
+  7803716, 7413876, 7413877, 15802499, 3219572, 3609412, 3085364, 3219573, 11608195, 7803972,
+  7803717, 15802500, 7415926, 15802501, 11608196, 3609413, 3609668, 3221622, 11608197, 7803973,
+  7803988, 7413879, 15804550, 3609669, 3609684, 3219575, 11610246, 7803989, 7418980, 15802503,
+  3609685, 3224676, 11608199, 7418981, 7414900, 82911368, 3224677, 3220596, 78717064, 7414901,
+  15803524, 3220597, 11609220, 7416950, 15803525, 3222646, 11609221, 7414903, 15805574, 3220599,
+  11611270, 15803527, 11609223, 82912392, 78718088]
 
 def certificate (p : Params) : List St :=
   if !p.handler then certNoHandler else if p.limiterOn && p.sharedMu then certShared else certPlain
 
+/-- for the handshake with `s.stopped` (`p.remembers`) -/
 def certified (p : Params) : Bool := closedSet p (certificate p) && classifiedOn p (certificate p)
 
 /-- follow a schedule: the k-th entry picks the k-th successor -/
